@@ -86,15 +86,18 @@ func (sig *PreSignature) VerifySignatureShares(shares map[party.ID]SignatureShar
 }
 
 func (sig *PreSignature) Validate() error {
+	if sig.R == nil || sig.RBar == nil || sig.S == nil || sig.KShare == nil || sig.ChiShare == nil {
+		return errors.New("presignature: missing fields")
+	}
 	if len(sig.RBar.Points) != len(sig.S.Points) {
 		return errors.New("presignature: different number of R,S shares")
 	}
 
 	for id, R := range sig.RBar.Points {
-		if S, ok := sig.S.Points[id]; !ok || S.IsIdentity() {
+		if S, ok := sig.S.Points[id]; !ok || S == nil || S.IsIdentity() {
 			return errors.New("presignature: S invalid")
 		}
-		if R.IsIdentity() {
+		if R == nil || R.IsIdentity() {
 			return errors.New("presignature: RBar invalid")
 		}
 	}
